@@ -1,5 +1,6 @@
 import GixModel.Lemmas.C28
 import GixModel.Lemmas.C28Body
+import GixModel.Lemmas.C28Value
 /-
 C28 — Config edits change only what was edited.  PROPERTY THEOREMS ONLY.
 
@@ -9,8 +10,10 @@ table; it is tied to the real `gix_config::File` by edit histories in the harnes
 * `call_frame` (ALL files, ALL calls): a successful call leaves the front matter alone and does
   exactly one of: modify ONE section in place, append ONE section, remove ONE section. Hence
   `other_sections_untouched`. `history_front_matter` / `history_sections`: over ALL edit histories.
-* `written_value_reads_back` (ALL byte strings): what `set`/`push` write is read by
-  `value::normalize` as exactly the value that was given.
+* `written_value_reads_back`, `written_value_scans_back`, `written_value_read_by_gitoxide` (ALL byte
+  strings) and `written_value_read_by_git` (all without FF / CR): what `set`/`push` write for a
+  value is scanned back as one value event and read — by gitoxide and by git — as exactly the
+  value that was given.
 * `push_frame` (ALL bodies): push only appends; the comments are those that were there; the
   entries are the old ones plus exactly the new one.
 * `set_frame_absent` / `set_frame_present` (ALL bodies): `set` is `push` when the key is absent,
@@ -82,6 +85,28 @@ theorem written_value_reads_back (v : Bytes) : normalize (escapeValue v) = v :=
   normalize_escapeValue v
 
 example : escapeValue [32, 97, 34, 10, 59] = [34, 32, 97, 92, 34, 92, 110, 59, 34] := by decide +kernel
+
+/-- … and the parser agrees: the written text is scanned by `value_impl` as exactly ONE value event
+holding that text, whatever follows the end of the line — for EVERY byte string. -/
+theorem written_value_scans_back (v rest : Bytes) (em : List Event) :
+    valueScan (escapeValue v ++ 10 :: rest) [] false false em =
+      some (em ++ [.value (escapeValue v)], 10 :: rest) :=
+  escapeValue_scans_back v rest em
+
+/-- So gitoxide reads the written line `<blanks><escaped value><LF>…` as exactly the value given. -/
+theorem written_value_read_by_gitoxide (w v rest : Bytes) (hw : w.all isSpace = true) :
+    gixValueOfText (w ++ escapeValue v ++ 10 :: rest) = some v :=
+  written_value_gix w v rest hw
+
+/-- And so does git ("git and gitoxide both read the intended new values"): `parse_value` reads the
+written line as exactly the value given, for every value without FF / CR bytes (the line is then in
+the domain of C27's `value_eq_git`). -/
+theorem written_value_read_by_git (v : Bytes) (hv : ∀ b ∈ v, b ≠ 12 ∧ b ≠ 13) :
+    gitParseValue ([32] ++ escapeValue v ++ [10]) = some v :=
+  written_value_git v hv
+
+example : gitParseValue ([32] ++ escapeValue [32, 97, 34, 10, 9, 59, 92, 32] ++ [10]) = some [32, 97, 34, 10, 9, 59, 92, 32] := by
+  decide +kernel
 
 /-- `push`, on EVERY body: nothing that was there is touched (the old body is a prefix), no comment
 is added or lost, and the entries are the old ones plus exactly the pushed one. -/
